@@ -9,7 +9,7 @@
        shape (rows, cols): the executable specification is the dense / sparse step of C04Model restricted to keys that do
        not resize. *)
 From Coq Require Import List Arith ZArith Bool.
-From PV Require Import Base.Index Np.Array Model.Sparse Model.Harness Model.C04Model Model.C04Harness.
+From PV Require Import Base.Index Np.Array Model.Sparse Model.Harness Model.C04Model Model.C04Harness Model.C04Mat.
 Import ListNotations.
 
 (* ------------------------------------------------------------------------------------------------ *)
@@ -89,21 +89,9 @@ Definition np_adv_differs (T : dense Z) (es : list kelem) : bool :=
 (* ------------------------------------------------------------------------------------------------ *)
 (* (b) tenmat / sptenmat entry access: 2-way arrays of fixed shape                                    *)
 (* ------------------------------------------------------------------------------------------------ *)
-Definition fixed_step_dense (T : dense Z) (o : zop) : option (dense Z * outv (V:=Z)) :=
-  match dshape T with
-  | [_; _] =>
-      match zstep_dense T o with
-      | Some (T1, out) => if nvec_eqb (dshape T1) (dshape T) then Some (T1, out) else None
-      | None => None end
-  | _ => None end.
-
-Definition fixed_step_sparse (S : sparse Z) (o : zop) : option (sparse Z * outv (V:=Z)) :=
-  match sshape S with
-  | [_; _] =>
-      match zstep_sparse S o with
-      | Some (S1, out) => if nvec_eqb (sshape S1) (sshape S) then Some (S1, out) else None
-      | None => None end
-  | _ => None end.
+(* the Z instances of the generic fixed-shape steps of Model/C04Mat.v (theorems: Proofs/C04Mat.v) *)
+Definition fixed_step_dense (T : dense Z) (o : zop) : option (dense Z * outv (V:=Z)) := fixed_step_dense_g 0%Z T o.
+Definition fixed_step_sparse (S : sparse Z) (o : zop) : option (sparse Z * outv (V:=Z)) := fixed_step_sparse_g 0%Z zisz S o.
 
 (* tenmat: raw matrix after every step and the returned value; a request the specification rejects (out of range) must raise
    and leave the matrix unchanged *)
@@ -134,3 +122,27 @@ Fixpoint check_sptenmat (S : sparse Z) (ops : list zop) (obs : list (sparse Z * 
       end
   | _, _ => false
   end.
+
+(* ------------------------------------------------------------------------------------------------ *)
+(* (c) wave 3: histories whose sparse stored order is not the faithful model's (start states that are results of earlier
+   computations, sptensor right-hand sides in arbitrary stored order / returned by earlier reads): the model is stepped from
+   the OBSERVED previous state (the refinement theorems hold for every stored order) and the observed next state must be
+   well-formed and denote the model's next state; a sptensor returned by a read must be well-formed as well *)
+(* ------------------------------------------------------------------------------------------------ *)
+Definition xout_wf (x : xout) : bool := match x with XSparse R => wf_spb zisz R | _ => true end.
+
+Fixpoint check_sparse_den (S : sparse Z) (ops : list zop) (obs : list (sparse Z * option xout)) : bool :=
+  match ops, obs with
+  | [], [] => true
+  | o :: ops', (S2, xo) :: obs' =>
+      match zstep_sparse S o, xo with
+      | Some (S1, out), Some x => sp_denotes S2 (full 0%Z S1) && out_ok out x && xout_wf x && check_sparse_den S2 ops' obs'
+      | None, None => sp_raw_eqb S S2 && check_sparse_den S2 ops' obs'
+      | _, _ => false
+      end
+  | _, _ => false
+  end.
+
+(* the start state pyttb built (from C-ordered / non-contiguous data, by a computation, by a read) is the intended array *)
+Definition start_dense_ok (T0 T : dense Z) : bool := dense_eqb T0 T.
+Definition start_sparse_ok (S0 : sparse Z) (T : dense Z) : bool := sp_denotes S0 T.
